@@ -38,7 +38,7 @@ NoCfg == [keyed |-> TRUE, wrel |-> TRUE, rrel |-> TRUE, wtl |-> TRUE, rtl |-> TR
 TraceInit ==
   /\ l = 1 /\ run = 0 /\ cfg = NoCfg /\ matchDone = FALSE /\ lateDone = FALSE
   /\ written = <<>> /\ got = [w \in {"R", "R2"} |-> <<>>] /\ gone = {} /\ viol = {} /\ known = {}
-  /\ guid = [w \in {"R", "R2"} |-> <<"", 0>>] /\ nack = {} /\ refrag = {} /\ arrived = {} /\ nfrags = <<>> /\ txc = <<>>
+  /\ guid = [w \in {"R", "R2"} |-> <<"", 0, "">>] /\ nack = {} /\ refrag = {} /\ arrived = {} /\ nfrags = <<>> /\ txc = <<>>
 
 Compat == (cfg.wrel \/ ~cfg.rrel) /\ (cfg.wtl \/ ~cfg.rtl)
 Compat2 == cfg.wrel /\ (cfg.wtl \/ cfg.late # "tl")
@@ -68,16 +68,17 @@ RecvViol(e) ==
 SNsOf(ph) == {i \in DOMAIN written : written[i].phase \in ph}
 MissingSNs(who, ph) == {i \in SNsOf(ph) : written[i].item \notin Range(got[who])}
 SMinOf(S) == CHOOSE x \in S : \A y \in S : x <= y
+FragFor(e) == {w \in {"R", "R2"} : guid[w][2] = e.to /\ (e.rd = "00000000" \/ e.rd = guid[w][3])}
 S3Sig(who, miss) ==
   /\ miss # {}
   /\ LET sn == SMinOf(miss) IN
        /\ <<guid[who][1], sn>> \in nack
-       /\ <<guid[who][2], sn>> \notin refrag
+       /\ <<who, sn>> \notin refrag
        /\ sn \in DOMAIN nfrags
-       /\ \E f \in 1..nfrags[sn] : <<guid[who][2], sn, f>> \notin arrived
+       /\ \E f \in 1..nfrags[sn] : <<who, sn, f>> \notin arrived
        \* the writer did repeat every fragment that never arrived at least once (a writer that never repairs is not S3)
-       /\ \A f \in 1..nfrags[sn] : <<guid[who][2], sn, f>> \notin arrived =>
-             (<<guid[who][2], sn, f>> \in DOMAIN txc /\ txc[<<guid[who][2], sn, f>>] >= 2)
+       /\ \A f \in 1..nfrags[sn] : <<who, sn, f>> \notin arrived =>
+             (<<who, sn, f>> \in DOMAIN txc /\ txc[<<who, sn, f>>] >= 2)
 S3Clause == "C07_S3_delivery_stuck_behind_sample_with_lost_fragment"
 
 \* R: reliable keep-all pair that was matched before the first write: everything written, in the order written
@@ -136,10 +137,10 @@ Step ==
                        late |-> e.late, third |-> e.third, del |-> e.del]
             /\ matchDone' = FALSE /\ lateDone' = FALSE /\ written' = <<>> /\ got' = [w \in {"R", "R2"} |-> <<>>]
             /\ gone' = {} /\ viol' = {} /\ known' = {}
-            /\ guid' = [w \in {"R", "R2"} |-> <<"", 0>>] /\ nack' = {} /\ refrag' = {} /\ arrived' = {} /\ nfrags' = <<>> /\ txc' = <<>>
+            /\ guid' = [w \in {"R", "R2"} |-> <<"", 0, "">>] /\ nack' = {} /\ refrag' = {} /\ arrived' = {} /\ nfrags' = <<>> /\ txc' = <<>>
        [] e.ev = "Create" ->
             /\ viol' = viol \cup (IF ~e.ok THEN {"C07_entity_creation_failed"} ELSE {})
-            /\ guid' = IF e.what \in {"R", "R2"} THEN [guid EXCEPT ![e.what] = <<e.guid, e.port>>] ELSE guid
+            /\ guid' = IF e.what \in {"R", "R2"} THEN [guid EXCEPT ![e.what] = <<e.guid, e.port, e.eid>>] ELSE guid
             /\ UNCHANGED <<run, cfg, matchDone, lateDone, written, got, gone, known, nack, refrag, arrived, nfrags, txc>>
        [] e.ev = "St" ->
             /\ viol' = viol \cup (IF e.k = "M" /\ (e.cur < 0 \/ e.chg \notin {-1, 1}) THEN {"C07_matched_status_malformed"} ELSE {})
@@ -177,15 +178,17 @@ Step ==
             /\ UNCHANGED <<run, cfg, matchDone, lateDone, written, got, gone, viol, known, guid, arrived, nfrags, txc>>
        [] e.ev = "Net" ->
             /\ nack' = IF e.k = "NACKFRAG" /\ e.fate = "fwd" THEN nack \cup {<<e.rg, e.sn>>} ELSE nack
-            /\ refrag' = IF e.k = "FRAG" THEN refrag \cup {<<e.to, e.sn>>} ELSE refrag
+            \* a DATAFRAG is for the readers at the port it goes to that it names (or for all of them if it names none): two
+            \* readers of one participant share the port, and a repair is addressed to one of them
+            /\ refrag' = IF e.k = "FRAG" THEN refrag \cup {<<w, e.sn>> : w \in FragFor(e)} ELSE refrag
             /\ arrived' = IF e.k = "FRAG" /\ e.fate = "fwd"
-                             THEN arrived \cup {<<e.to, e.sn, f>> : f \in e.f..(e.f + e.n - 1)} ELSE arrived
+                             THEN arrived \cup {<<w, e.sn, f>> : w \in FragFor(e), f \in e.f..(e.f + e.n - 1)} ELSE arrived
             /\ nfrags' = IF e.k = "FRAG" /\ e.fsz > 0
                             THEN [x \in DOMAIN nfrags \cup {e.sn} |->
                                     IF x = e.sn THEN (e.size + e.fsz - 1) \div e.fsz ELSE nfrags[x]]
                             ELSE nfrags
             /\ txc' = IF e.k = "FRAG"
-                         THEN LET ks == {<<e.to, e.sn, f>> : f \in e.f..(e.f + e.n - 1)} IN
+                         THEN LET ks == {<<w, e.sn, f>> : w \in FragFor(e), f \in e.f..(e.f + e.n - 1)} IN
                               [x \in DOMAIN txc \cup ks |-> (IF x \in DOMAIN txc THEN txc[x] ELSE 0) + (IF x \in ks THEN 1 ELSE 0)]
                          ELSE txc
             /\ UNCHANGED <<run, cfg, matchDone, lateDone, written, got, gone, viol, known, guid>>
